@@ -31,7 +31,7 @@ func init() {
 				n = 2400
 			}
 			return fw.Meta{N: n, Level: "exploration", Chunk: 3, CaseTimeoutS: 300, MinNT: 30,
-				Rule:        "case index mod 3: 0 = SimpleDB with a driven schedule: >=40 rotation/flush/compaction cycles with a census (/proc/self/fd, /proc/self/maps filtered by the database directory; runtime goroutine dump filtered by go-sstables frames) at every quiescent point: descriptors <= 4, mappings <= live tables + 3; after Close: 0 descriptors, 0 mappings, no library goroutine (polled <= 5 s), then re-Open in the same process, Close, RemoveAll. 1 = SimpleDB with the live compactor where Close is called while a compaction is in flight (held open at a hook point), plus directories carrying a torn compaction marker; same after-Close census. 2 = table readers (all index loaders, complete and abandoned Scans, range scans) and RecordIO readers/writers (incl. readers whose Open fails on a short or damaged file) in seeded create/use/Close sequences; census must return to the baseline. Non-trivial: >=10 censuses taken in the case; distinct by (kind, sequence hash)",
+				Rule:        "case index mod 3: 0 = SimpleDB with a driven schedule: >=40 rotation/flush/compaction cycles with a census (/proc/self/fd, /proc/self/maps filtered by the database directory; runtime goroutine dump filtered by go-sstables frames) at every quiescent point: descriptors <= 4, mappings <= live tables + 3; after Close: 0 descriptors, 0 mappings, no library goroutine (polled <= 5 s), then re-Open in the same process, Close, RemoveAll. 1 = SimpleDB with the live compactor where Close is called while a compaction is in flight (held open at a hook point), plus directories carrying a torn compaction marker; same after-Close census. 2 = table readers (all index loaders, complete and abandoned Scans, range scans; also the repository's four legacy-format fixture tables) and RecordIO readers/writers (incl. readers whose Open fails on a short or damaged file) in seeded create/use/Close sequences; census must return to the baseline. Non-trivial: >=10 censuses taken in the case; distinct by (kind, sequence hash)",
 				MinObs:      map[string]int64{"censuses": 1500, "db_cycles": 1200, "closes_during_inflight_compaction": 10, "abandoned_scans": 50, "failed_opens_closed": 50, "after_close_censuses": 100},
 				Assumptions: []string{"Linux /proc is the ground truth for descriptors and mappings", "a goroutine counts as 'library goroutine' when its stack has a go-sstables frame"},
 			}
@@ -325,9 +325,25 @@ func c19Readers(c *fw.Case) {
 	if !check("writer") {
 		return
 	}
+	// tables of the legacy (v0) format: the repository ships four as fixtures
+	var legacy []string
+	if rd := os.Getenv("VERIF_REPO_DIR"); rd != "" {
+		for _, n := range []string{"SimpleWriteHappyPathSSTable", "SimpleWriteHappyPathSSTableRecordIOV2", "SimpleWriteHappyPathSSTableWithBloom", "SimpleWriteHappyPathSSTableWithMetaData"} {
+			src := filepath.Join(rd, "sstables", "test_files", "v0_compat", n)
+			if st, err := os.Stat(src); err == nil && st.IsDir() {
+				dst := filepath.Join(dir, "legacy-"+n)
+				if copyDir(src, dst) == nil {
+					legacy = append(legacy, dst)
+				}
+			}
+		}
+	}
 	steps := 15 + r.Intn(20)
 	for s := 0; s < steps; s++ {
-		op := r.Intn(8)
+		op := r.Intn(9)
+		if op == 8 && len(legacy) == 0 {
+			op = 0
+		}
 		c.HashAdd(op)
 		switch op {
 		case 0, 1, 2, 3: // table reader with some loader, scans, close
@@ -432,6 +448,33 @@ func c19Readers(c *fw.Case) {
 				_ = mr.Close()
 			}
 			if !check("recordio-mmap-reader") {
+				return
+			}
+		case 8: // legacy-format table: full scans (complete / abandoned / untouched), then Close
+			lp := legacy[r.Intn(len(legacy))]
+			rd, err := sstables.NewSSTableReader(sstables.ReadBasePath(lp), sstables.ReadWithKeyComparator(skiplist.BytesComparator{}))
+			if err != nil {
+				c.Obs("legacy_tables_not_openable", 1)
+				break
+			}
+			for u := 0; u < 1+r.Intn(3); u++ {
+				it, err := rd.Scan()
+				if err != nil {
+					continue
+				}
+				for i := 0; i < r.Intn(12); i++ {
+					if _, _, err := it.Next(); err != nil {
+						break
+					}
+				}
+				c.Obs("abandoned_scans", 1)
+			}
+			c.Obs("legacy_tables_scanned", 1)
+			if err := rd.Close(); err != nil {
+				c.Violate("resources/reader-close-error/legacy", "%v", err)
+				return
+			}
+			if !check("legacy-table-reader+scan") {
 				return
 			}
 		default: // writer
